@@ -15,8 +15,18 @@ def pmap(func: Callable[[Any], Any], shards: List[Any], procs: int | None = None
     procs = procs or nproc()
     if procs <= 1 or len(shards) <= 1 or os.environ.get("VERIF_SERIAL"):
         return [func(s) for s in shards]
-    with _CTX.Pool(processes=min(procs, len(shards))) as pool:
+    # maxtasksperchild=1: every shard runs in a freshly forked child, so its process history is
+    # exactly (state of the parent at fork time) + (the shard itself) whatever the OS scheduling.
+    with _CTX.Pool(processes=min(procs, len(shards)), maxtasksperchild=1) as pool:
         return pool.map(func, shards, chunksize=1)
+
+
+def in_child(func: Callable[[Any], Any], arg: Any) -> Any:
+    """Run func(arg) in a fresh forked child (keeps the parent's interpreter state untouched)."""
+    if os.environ.get("VERIF_SERIAL"):
+        return func(arg)
+    with _CTX.Pool(processes=1, maxtasksperchild=1) as pool:
+        return pool.apply(func, (arg,))
 
 
 def chunks(seq: List[Any], n: int) -> List[List[Any]]:
